@@ -81,6 +81,20 @@ func cmdAdmit(args []string) {
 			all = append(all, hooks...)
 		}
 	}
+	// one session per ID across an idle time-out of a session whose loop is blocked (takes two ticks of the 5 s monitor)
+	{
+		hooks, viol, inconcl := runAdmitIdleScenario(col)
+		for _, v := range viol {
+			res.violate(v.Sig, v.What, v.Replay)
+		}
+		if inconcl != "" {
+			res.Inconclusive = append(res.Inconclusive, inconcl)
+		} else {
+			res.Evaluations++
+			distinct["idle-blocked-loop"] = true
+			all = append(all, hooks...)
+		}
+	}
 	// the peer disappears while the node is between the two requests that end the establishment (needs a gate)
 	for k := 0; k < 18; k++ {
 		hooks, viol, inconcl := runAdmitGateScenario(col, k)
